@@ -72,10 +72,11 @@ def build(verbose=False):
     for o in glob.glob(f"{out}/*.o"):
         os.unlink(o)
     open(os.path.join(out, ".ok"), "w").write(str(time.time()))
-    # keep the cache small: drop all but the 4 most recent builds
+    # keep the cache small: drop all but the 10 most recent builds (and nothing younger than an hour)
     dirs = sorted([d for d in glob.glob(f"{BUILD}/*") if os.path.isdir(d) and os.path.exists(os.path.join(d, ".ok"))], key=os.path.getmtime)
-    for d in dirs[:-4]:
-        shutil.rmtree(d, ignore_errors=True)
+    for d in dirs[:-10]:
+        if time.time() - os.path.getmtime(d) > 3600:   # another check may still be running from a recent build
+            shutil.rmtree(d, ignore_errors=True)
     if verbose:
         sys.stderr.write(f"built {exe} in {time.time()-t0:.1f}s\n")
     return exe
